@@ -217,6 +217,12 @@ def expectedHeaderText (orig : Bytes) : Option Bytes :=
     ([maxHeaderValue, maxHeaderValue - 1, maxHeaderValue - 2, maxHeaderValue - 3].find?
       fun k => utf8Valid (orig.take k)).map fun k => orig.take k
 
+/-- the same demand said declaratively (`n` = the capacity, 65 535 for a string header): `t` is a prefix of
+    `orig` of at most `n` bytes, is well-formed UTF-8, and no well-formed prefix of at most `n` bytes is longer -/
+def IsLongestValidPrefix (n : Nat) (orig t : Bytes) : Prop :=
+  t <+: orig ∧ t.length ≤ n ∧ utf8Valid t = true ∧
+    ∀ p : Bytes, p <+: orig → p.length ≤ n → utf8Valid p = true → p.length ≤ t.length
+
 /-! ## the documented header sets, as a table -/
 
 inductive Kind where
